@@ -175,7 +175,10 @@ def check_cache():
         for _ in range(40):
             ops = [('init', init)]
             for _ in range(rnd.randint(1, 5)):
-                if rnd.random() < 0.3:
+                x = rnd.random()
+                if x < 0.12:
+                    ops.append(('init', rnd.randint(1, 48)))      # initialised again (any order)
+                elif x < 0.35:
                     ops.append(('trunc', rnd.randint(1, 48)))
                 else:
                     length = rnd.randint(1, 48)
